@@ -3621,3 +3621,294 @@ def t_pos_name(facts, res, tier):
                         res.fail(key, facts.where(fn, x), "%s reports `%s` - about `%s`, read from another part of the declaration - at `%s`, the part being handled now" % (fn["name"], txt[:50], elsewhere[0], expr_text(pos)[:30]))
     if n == 0:
         raise AnchorMissing("compile.rs: no error naming something read from an earlier part of a declaration")
+
+
+@rule("T-SEQ-SCOPE", floor=3,
+      text="the scope clause of T-SEQ-POINT run on its own (C14, C16, C18): the pending-list of postfix ++/-- is a stack whose depth callers "
+           "record; only the ends of a full expression empty it whole, every other site purges what it raised itself (`..since(before)`).  A site "
+           "that empties the whole list inside an expression leaves an enclosing call, `?:` or condition with a recorded depth larger than the "
+           "list (`split_off` panics), and applies the increments of the enclosing expression early (a load() that reads `tab[X++]` after the INX)")
+def t_seq_scope(facts, res, tier):
+    from core import Result
+    tmp = Result()
+    t_seq_point(facts, tmp, tier)
+    keep = lambda k: ":scope" in k
+    for key, nt, sample in tmp.instances:
+        if keep(key):
+            res.inst(key.replace("T-SEQ-POINT", "T-SEQ-SCOPE", 1), nt, sample)
+    for v in tmp.violations:
+        if keep(v.key):
+            res.fail(v.key.replace("T-SEQ-POINT", "T-SEQ-SCOPE", 1), v.where, v.msg, getattr(v, "detail", None))
+
+
+@rule("T-FLAGS-OK-EXACT", floor=3,
+      text="flags_ok answers whether the flags the generator believes in describe a given operand.  For a state that names a memory operand "
+           "(Absolute / AbsoluteX / AbsoluteY) the answer is yes only for the operand with the same variable, the same width flag and the same "
+           "offset: the arm binds every component of the state (no `_`, no `..`) and compares the operand with the operand rebuilt from all of "
+           "them.  After `s++` on a short the flags are those of the 16-bit value (`Absolute(s, false, 0)`): accepted for the byte `s & 0xff` "
+           "(`Absolute(s, true, 0)`), the `LDA s` is dropped and the branch uses the 16-bit Z")
+def t_flags_ok_exact(facts, res, tier):
+    fn = next((f for f in facts.fns if f["name"] == "flags_ok" and not f.get("test")), None)
+    if fn is None:
+        raise AnchorMissing("flags_ok not found")
+    n = 0
+    for m in walk(fn["body"]):
+        if m.get("k") != "match":
+            continue
+        for a in m["arms"]:
+            pt = pat_text(a["pat"]).replace(" ", "")
+            mm = re.match(r"FlagsState::(Absolute\w*)\((.*)\)$", pt)
+            if not mm:
+                continue
+            n += 1
+            var = mm.group(1)
+            key = "T-FLAGS-OK-EXACT:flags_ok:%s" % var
+            comps = [c for c in mm.group(2).split(",") if c]
+            body = expr_text(a["body"]).replace(" ", "")
+            res.inst(key, True, {"state": var, "components": comps, "answer": body[:80]})
+            if any(c in ("_", "..") for c in comps):
+                res.fail(key, facts.where(fn, a["body"]), "flags_ok ignores a component of FlagsState::%s (`%s`): the flags of one operand are accepted for another one that differs in that component (the 16-bit value and its low byte)" % (var, pt))
+                continue
+            rebuilt = re.search(r"ExprType::%s\(([^()]*(\([^()]*\)[^()]*)*)\)" % var, body)
+            used = all(re.search(r"\b%s\b" % re.escape(c), rebuilt.group(1) if rebuilt else "") for c in comps)
+            if "==" not in body or not rebuilt or not used:
+                res.fail(key, facts.where(fn, a["body"]), "flags_ok does not compare the operand with `ExprType::%s` rebuilt from every component of the state (%s): `%s`" % (var, ", ".join(comps), body[:70]))
+    if n == 0:
+        raise AnchorMissing("flags_ok: no arm for a memory state")
+
+
+@rule("T-CONST-TRUTH", floor=4,
+      text="a constant used as a truth value is true exactly when it is not zero, in every evaluator: where generate_conditions.rs decides a branch "
+           "from the payload of an `ExprType::Immediate(v)`, `v` is compared with 0 by `!=` or `==` only.  `v > 0` calls -1 false: `if (-1)` takes "
+           "the else branch while the constant folder and the calculator call -1 true")
+def t_const_truth(facts, res, tier):
+    from scopes import scoped
+    n = 0
+    for fn in facts.fns:
+        if not fn["file"].endswith("generate_conditions.rs") or fn.get("test"):
+            continue
+        for node, env, doms in scoped(fn):
+            if node.get("k") != "binary" or node["op"] not in ("==", "!=", ">", "<", ">=", "<="):
+                continue
+            sides = [node["l"], node["r"]]
+            lit = [s for s in sides if s.get("k") == "lit" and s.get("ty") == "int" and s.get("v") in (0, 1)]
+            if len(lit) != 1:
+                continue
+            other = sides[0] if sides[1] is lit[0] else sides[1]
+            while isinstance(other, dict) and other.get("k") in ("unary", "paren", "ref"):
+                other = other["e"]
+            if not (isinstance(other, dict) and other.get("k") == "path" and len(other["segs"]) == 1):
+                continue
+            b = env.get(other["segs"][0])
+            if b is None or b.src != "pat" or (b.ctor or [""])[-1] != "Immediate":
+                continue
+            n += 1
+            key = "T-CONST-TRUTH:%s:%s" % (fn["name"], expr_text(node).replace(" ", ""))
+            res.inst(key, True, {"function": fn["name"], "test": expr_text(node)})
+            if not (node["op"] in ("==", "!=") and lit[0]["v"] == 0):
+                res.fail(key, facts.where(fn, node), "%s decides on a constant with `%s`: a constant is true when it is not zero (negative ones included)" % (fn["name"], expr_text(node)))
+    if n == 0:
+        raise AnchorMissing("generate_conditions.rs: no test of an Immediate payload against 0")
+
+
+@rule("T-LABEL-MOMENT", floor=10,
+      text="the labels of one construct (`.else7` / `.ifend7`) share the number the counter had when the construct was opened.  Each "
+           "`format!(\"..{}\", self.local_label_counter_X)` is evaluated before any nested generation can move the counter: between the increment of "
+           "the counter that opens the construct and the format!, no statement calls a generate_* function.  A label formatted after the condition "
+           "has been generated takes the number of a construct drawn inside the condition: `.ifend2` is defined twice")
+def t_label_moment(facts, res, tier):
+    from scopes import scoped
+    n = 0
+    for fn in genmodel.gen_fns(facts):
+        for node, env, doms in scoped(fn):
+            if not (node.get("k") == "macro" and node.get("name") == "format"):
+                continue
+            counters = {expr_text(a).replace(" ", "") for a in node.get("args", [])[1:] if re.fullmatch(r"self\.local_label_counter_\w+", expr_text(a).replace(" ", ""))}
+            if not counters:
+                continue
+            c = sorted(counters)[0]
+            n += 1
+            stmts = [d[1] for d in doms if d[0] == "stmt"]
+            # statements evaluated since the counter was last incremented (or since the function began)
+            since = []
+            found_inc = False
+            for s in reversed(stmts):
+                if any(x.get("k") == "assignop" and expr_text(x["l"]).replace(" ", "") == c for x in walk(s)):
+                    found_inc = True
+                    break
+                since.append(s)
+            if not found_inc:
+                # `let l = format!(.., counter); counter += 1;`: the number is taken and consumed on the spot
+                par = _parents(fn["body"]) if not hasattr(t_label_moment, "_par") or t_label_moment._par[0] is not fn else t_label_moment._par[1]
+                t_label_moment._par = (fn, par)
+                q = node
+                blk = None
+                while q is not None:
+                    pq, kq, iq = par.get(id(q), (None, None, None))
+                    if pq is not None and pq.get("k") == "block" and kq == "stmts":
+                        blk, idx = pq, iq
+                        break
+                    q = pq
+                nxt = blk["stmts"][idx + 1] if blk is not None and idx + 1 < len(blk["stmts"]) else None
+                if nxt is not None and nxt.get("k") == "assignop" and expr_text(nxt["l"]).replace(" ", "") == c:
+                    res.inst("T-LABEL-MOMENT:%s:%s" % (fn["name"], node["args"][0].get("v") if node["args"] and node["args"][0].get("k") == "lit" else "?"), True, {"function": fn["name"], "counter": c, "consumed_on_the_spot": True})
+                    continue
+            moved = [s for s in since if any(_self_call(x) and str(x["method"]).startswith("generate_") for x in walk(s))]
+            key = "T-LABEL-MOMENT:%s:%s" % (fn["name"], (node["args"][0].get("v") if node["args"] and node["args"][0].get("k") == "lit" else "?"))
+            res.inst(key, True, {"function": fn["name"], "counter": c, "nested_generation_before": len(moved)})
+            if moved:
+                res.fail(key, facts.where(fn, node), "%s formats the label `%s` from %s after `%s` has run: the nested generation may have drawn labels of its own, and this one takes their number instead of the number the construct was opened with" % (
+                    fn["name"], node["args"][0].get("v"), c, expr_text(moved[-1])[:60]))
+    if n == 0:
+        raise AnchorMissing("no label formatted from a label counter")
+
+
+@rule("T-DISPLAY-NO-SHADOW", floor=2,
+      text="the text of an error is built from the fields of the Error (`msg`, `line`, `filename`, `included_in`).  Inside the Display "
+           "implementation no inner pattern binds a name the enclosing arm has already bound to a field: `Some((file, line))` opened on "
+           "`included_in` makes `{line}` the line of the #include in both places, and the line of the defect is never printed")
+def t_display_no_shadow(facts, res, tier):
+    n = 0
+    for fn in facts.fns:
+        if not fn["file"].endswith("/error.rs") or fn["name"] != "fmt" or fn.get("test"):
+            continue
+        for m in walk(fn["body"]):
+            if m.get("k") != "match":
+                continue
+            for a in m["arms"]:
+                outer = set(scopes_pat_names(a["pat"]))
+                if not outer or "Error::" not in pat_text(a["pat"]).replace(" ", ""):
+                    continue
+                n += 1
+                key = "T-DISPLAY-NO-SHADOW:%s" % pat_text(a["pat"]).replace(" ", "").split("{")[0]
+                res.inst(key, True, {"fields": sorted(outer)})
+                for inner in walk(a["body"]):
+                    pats = []
+                    if inner.get("k") == "match":
+                        pats = [x["pat"] for x in inner["arms"]]
+                    elif inner.get("k") == "letcond":
+                        pats = [inner["pat"]]
+                    elif inner.get("k") == "let":
+                        pats = [inner.get("pat")]
+                    for p in pats:
+                        again = outer & set(scopes_pat_names(p))
+                        if again:
+                            res.fail(key, facts.where(fn, inner), "the Display arm for %s binds %s again in the inner pattern `%s`: the field of the error with that name is hidden from the text built below" % (key.split(":")[1], ", ".join("`%s`" % x for x in sorted(again)), pat_text(p)[:40]))
+    if n == 0:
+        raise AnchorMissing("error.rs: Display::fmt for Error not found")
+
+
+LOG_MACROS = {"debug", "trace", "info", "warn", "error"}
+STATEFUL_METHODS = {"peek", "peek_nth", "next", "next_back", "nth", "next_if", "pop", "push", "insert", "remove", "drain", "take", "swap", "sort", "borrow_mut",
+                    "lock", "set", "replace", "reset_peek", "advance_by", "retain", "clear", "truncate", "entry", "get_mut", "iter_mut", "last_mut", "first_mut", "extend", "append"}
+
+
+@rule("T-LOG-PURE", floor=25,
+      text="the arguments of a logging macro (debug!, trace!, info!, warn!, error!) are evaluated only when the process-wide log level lets the "
+           "message through.  They therefore change nothing: no argument calls a method that advances an iterator or a peek cursor or modifies a "
+           "collection (`iter.peek()` on a MultiPeek moves the cursor).  Otherwise the code generated depends on RUST_LOG, on the embedding "
+           "application, on an earlier job of the same process")
+def t_log_pure(facts, res, tier):
+    n = 0
+    for fn in facts.fns:
+        if fn.get("test") or "/tests/" in fn["file"]:
+            continue
+        for x in walk(fn["body"]):
+            if not (x.get("k") == "macro" and x.get("name") in LOG_MACROS):
+                continue
+            n += 1
+            key = "T-LOG-PURE:%s" % fn["name"]
+            bad = [y for a in x.get("args", []) for y in walk(a) if y.get("k") == "mcall" and y["method"] in STATEFUL_METHODS]
+            res.inst(key, True, {"function": fn["name"], "macro": x["name"], "stateful_calls": len(bad)})
+            for y in bad:
+                res.fail(key, facts.where(fn, x), "%s: an argument of %s! calls `%s`, which changes state: whether it runs depends on the process-wide log level, and so does what the compiler emits" % (fn["name"], x["name"], expr_text(y)[:50]))
+    if n == 0:
+        raise AnchorMissing("no logging macro found")
+
+
+SWAP_REGISTER = {"LDA": "accumulator", "LDX": "x_register", "LDY": "y_register", "TXA": "accumulator", "TYA": "accumulator", "TAX": "x_register", "TAY": "y_register", "PLA": "accumulator"}
+
+
+@rule("T-OPT-SWAP-RESET", floor=1,
+      text="optimize() may exchange two adjacent instructions (a load and the CLC / SEC that follows).  The moved load is then analysed a second "
+           "time, against what its own first analysis recorded: the swap forgets what was known of every register a swapped instruction writes "
+           "(`accumulator = None` for LDA; `x_register`, `y_register` for LDX, LDY), or the load is deleted as a redundant reload of the value it "
+           "is itself the only source of")
+def t_opt_swap_reset(facts, res, tier):
+    fn = facts.fn("optimize", "AssemblyCode")
+    conds = [x for x in walk(fn["body"]) if x.get("k") == "if" and any(y.get("k") == "assign" and expr_text(y["l"]).replace(" ", "") == "swap_both" and expr_text(y["r"]).strip() == "true" for y in walk(x["then"]))]
+    blocks = [x for x in walk(fn["body"]) if x.get("k") == "if" and expr_text(x["cond"]).replace(" ", "").strip("()") == "swap_both"]
+    if not conds or not blocks:
+        raise AnchorMissing("optimize(): the swap rule or the swap block was not found")
+    resets = {expr_text(y["l"]).replace(" ", "") for y in walk(blocks[0]["then"]) if y.get("k") == "assign" and expr_text(y["r"]).strip() == "None"}
+    n = 0
+    for c in conds:
+        t = expr_text(c["cond"]).replace(" ", "")
+        mns = set(re.findall(r"AsmMnemonic::(\w+)", t))
+        for mn in sorted(mns):
+            reg = SWAP_REGISTER.get(mn)
+            if reg is None:
+                continue
+            n += 1
+            key = "T-OPT-SWAP-RESET:%s" % mn
+            res.inst(key, True, {"swapped": mn, "writes": reg, "forgotten_at_the_swap": sorted(resets)})
+            if reg not in resets:
+                res.fail(key, facts.where(fn, c), "optimize() swaps a %s with the instruction after it and the swap block does not forget `%s` (it resets %s): the moved %s is analysed again and deleted as a reload of the value it has itself recorded" % (mn, reg, sorted(resets) or "nothing", mn))
+    if n == 0:
+        raise AnchorMissing("optimize(): the swap rule names no register-writing instruction")
+
+
+@rule("T-GRAMMAR-PREFIX-ORDER", floor=5,
+      text="the alternatives of a pest choice are tried in order and the first that matches wins.  Where two alternatives of one choice are tokens "
+           "(rules that are a plain string), one of which is a proper prefix of the other (`&` / `&&`, `<` / `<=` / `<<` / `<<=`, `+` / `+=`), the "
+           "longer one comes first: after `&`, `&&` can never match, and `a && b` is read as `a & (&b)` - the address of b")
+def t_grammar_prefix_order(facts, res, tier):
+    rules = facts.grammar_rules()
+
+    def alts(e):
+        if isinstance(e, dict) and e.get("k") == "choice":
+            return alts(e["a"]) + alts(e["b"])
+        return [e]
+
+    def literal(e):
+        if isinstance(e, dict) and e.get("k") == "str":
+            return e["v"]
+        if isinstance(e, dict) and e.get("k") == "ident" and e["v"] in rules and rules[e["v"]]["expr"].get("k") == "str":
+            return rules[e["v"]]["expr"]["v"]
+        return None
+    n = 0
+    seen = set()
+
+    def visit(rname, e):
+        nonlocal n
+        if not isinstance(e, dict):
+            return
+        if e.get("k") == "choice" and id(e) not in seen:
+            al = alts(e)
+            for x in walk_choice(e):
+                seen.add(id(x))
+            lits = [(i, literal(a), a.get("v")) for i, a in enumerate(al)]
+            lits = [t for t in lits if t[1]]
+            if len(lits) >= 2:
+                n += 1
+                key = "T-GRAMMAR-PREFIX-ORDER:%s" % rname
+                pairs = [(a, b) for a in lits for b in lits if a[0] < b[0] and b[1] != a[1] and b[1].startswith(a[1])]
+                res.inst(key, True, {"rule": rname, "tokens": len(lits), "prefix_pairs_out_of_order": len(pairs)})
+                for a, b in pairs:
+                    res.fail(key, "src/cc6502.pest:%s" % rules[rname].get("line"), "rule `%s`: the token `%s` (%s) is tried before `%s` (%s), of which it is a prefix: the longer token can never match there" % (rname, a[1], a[2], b[1], b[2]))
+            for a in al:
+                visit(rname, a)
+            return
+        for v in e.values():
+            if isinstance(v, dict):
+                visit(rname, v)
+
+    def walk_choice(e):
+        if isinstance(e, dict) and e.get("k") == "choice":
+            yield e
+            yield from walk_choice(e["a"])
+            yield from walk_choice(e["b"])
+    for rname, r in rules.items():
+        visit(rname, r["expr"])
+    if n == 0:
+        raise AnchorMissing("the grammar has no choice between tokens")
